@@ -68,7 +68,9 @@ def insert_subtier(kg, ins):
         kit = cont.tierDict[ins[1]]
         idx = ins[3] % (len(kit.tierNameList) + 1)
         name = "%s [x%d]" % (kit.name, ins[2])
-        kit.addTier(KlattSubPointTier(name, [(0.25, 1800.0 + ins[2]), (0.5, 1750.125)], kit.minTimestamp or 0, kit.maxTimestamp or 1.0),
+        lo = kit.minTimestamp if kit.minTimestamp is not None else (kg.minTimestamp or 0)
+        hi = kit.maxTimestamp if kit.maxTimestamp is not None else (kg.maxTimestamp or 1.0)
+        kit.addTier(KlattSubPointTier(name, [(lo + (hi - lo) / 4, 1800.0 + ins[2]), (lo + (hi - lo) / 2, 1750.125)], lo, hi),
                     idx if idx < len(kit.tierNameList) else None)
         REC.cls("C19:subtier-inserted-at-index")
         _current["inserted"] = [cont.name, kit.name, name]
@@ -412,22 +414,27 @@ def rand_value(rng):
     return rng.uniform(0, 5000)
 
 
-def rand_points(rng, hi, nmax=5):
+def rand_points(rng, hi, nmax=5, lo=0):
     n = rng.randrange(0, nmax + 1)
-    ts = sorted({rng.choice([rng.uniform(0, hi), rng.randrange(0, int(hi * 1000)) / 1000, rng.randrange(0, int(hi * 8)) / 8]) for _ in range(n)})
-    return [(t, rand_value(rng)) for t in ts]
+    w = hi - lo
+    ts = sorted({rng.choice([lo + rng.uniform(0, w), lo + rng.randrange(0, int(w * 1000)) / 1000, lo + rng.randrange(0, int(w * 8)) / 8]) for _ in range(n)})
+    return [(t, rand_value(rng)) for t in ts if lo <= t <= hi]
 
 
 def rand_spec(rng):
     hi = rng.choice([1.0, 1.194625, 2.5, 10.0])
     nform = rng.randrange(1, 7)
     nfric = rng.randrange(1, 7)
-    spec = {"xmin": 0, "xmax": hi, "points": {}, "oral": [rand_points(rng, hi) for _ in range(nform)], "oral_bw": [rand_points(rng, hi) for _ in range(nform)],
-            "fric": [rand_points(rng, hi, 3) for _ in range(nfric)], "fric_bw": [rand_points(rng, hi, 3) for _ in range(nfric)],
-            "nasal": rand_points(rng, hi, 2), "delta": rand_points(rng, hi, 2)}
+    # the time axis usually starts at 0; it may also start elsewhere: below zero, at a fraction, or a hair above a whole number
+    lo = rng.choice([0, 0, 0, 0.0, 0.25, -0.25, -1.5, 1 + 5e-10, 2 + 1e-12, -3])
+    if lo > hi - 0.5:
+        hi = lo + hi
+    spec = {"xmin": lo, "xmax": hi, "points": {}, "oral": [rand_points(rng, hi, 5, lo) for _ in range(nform)], "oral_bw": [rand_points(rng, hi, 5, lo) for _ in range(nform)],
+            "fric": [rand_points(rng, hi, 3, lo) for _ in range(nfric)], "fric_bw": [rand_points(rng, hi, 3, lo) for _ in range(nfric)],
+            "nasal": rand_points(rng, hi, 2, lo), "delta": rand_points(rng, hi, 2, lo)}
     for name in K.POINT_TIERS_1 + ["fricationAmplitude", "bypass", "gain"]:
         if rng.random() < 0.5:
-            spec["points"][name] = rand_points(rng, hi)
+            spec["points"][name] = rand_points(rng, hi, 5, lo)
     return spec
 
 
